@@ -401,6 +401,12 @@ func (r *Runner) Run() {
 	if rounds < 1 {
 		rounds = 1
 	}
+	if spec.Tasks >= 64 {
+		r.ts[0].events["crowd-round"]++
+	}
+	if spec.Pool == "lifo" {
+		r.ts[0].events["long-single-task-run-with-lifo-pool"]++
+	}
 	var res verifsim.Result
 	var total verifsim.Result
 	for round := 0; round < rounds; round++ {
@@ -529,6 +535,14 @@ func (r *Runner) step(st *Step) {
 	}
 	op := r.op(st.Op)
 	ts := r.st(st)
+	switch {
+	case isFocus(st.Op):
+		ts.events["operation-aimed-at-a-focused-definition"]++
+	case isPanicOp(st.Op):
+		ts.events["call-on-a-definition-whose-initialiser-panics"]++
+	case st.Op >= SysRejected && st.Op < PanicBase:
+		ts.events["systematic-call-on-a-rejected-definition"]++
+	}
 	ts.ops++
 	if !ts.usedTypes[op.Type] {
 		ts.usedTypes[op.Type] = true
@@ -846,6 +860,7 @@ func (r *Runner) execDec(op *OpSpec, st *Step) *Rec {
 			// a destination that already holds the very value the (possibly damaged) message was made from: a reused
 			// object whose slices and maps have exactly the room the message announces
 			pw = m.w
+			r.st(st).events["destination-already-holds-the-message's-value"]++
 		}
 		model.Realise(r.C, sd, pw, dst.Elem())
 	}
@@ -855,6 +870,7 @@ func (r *Runner) execDec(op *OpSpec, st *Step) *Rec {
 		} else if len(m.bytes) < len(m.clean) && op.FSeed%2 == 0 && string(m.clean[:len(m.bytes)]) == string(m.bytes) {
 			// a truncated message that arrives as a window buf[:k] of the buffer holding the whole one
 			in = r.guardedFor(st.Task, len(m.clean)).placeWithTail(m.bytes, m.clean[len(m.bytes):])
+			r.st(st).events["truncated-input-as-window-with-spare-capacity"]++
 		} else {
 			in = r.guardedFor(st.Task, len(m.bytes)).place(m.bytes)
 		}
@@ -1033,6 +1049,7 @@ func (r *Runner) decodeOnce(op *OpSpec, st *Step, sd *model.StructDef, m *messag
 		// the caller owns what was decoded: it writes into it (after the result was recorded). Nothing of that may
 		// show in any later result.
 		model.Scribble(r.C, sd, dst.Elem(), 0)
+		r.st(st).events["owner-writes-into-decoded-object"]++
 	}
 	switch r.Spec.Prof {
 	case "C05":
